@@ -1,4 +1,5 @@
 import PEval.Lemmas.MatchingUnique
+import PEval.Properties.KernelMatchable
 /-!
 # C02 — matching prefers label-compatible pairs, then best score (no blocking pair)
 
@@ -123,5 +124,35 @@ example : NoTies (mkTbl exCfg exScene) := noTies_of_check (by decide +kernel)
 /-- with a tie (two estimates at the same distance of one ground truth) the first listed wins -/
 example : getObjectResults exCfg { exScene with val := fun _ j => 1 + j } =
     .ok [(1, some 0), (0, some 1), (2, none)] := by decide +kernel
+
+/-! ## the label rule, for the CODE's decision table
+
+`PEval.KernelMatchable` (decision-table translator): `is_matchable` of the current source, tabulated over all its
+atoms, equals the model's `isMatchable` (`matchable_code_table_eq_isMatchable`); the table check is re-proved on every
+run. `valid i j` of the statements above is therefore what the code's own table says. -/
+
+/-- the `valid` plane of the model's table is the verdict of the CODE's decision table of `is_matchable` -/
+theorem valid_is_code_table {t : DT.DTree} (ht : Gen.K.matchable.tree = some t) (c : Cfg) (sc : Scene) (i j : Nat)
+    (e g : Obj) (he : sc.ests[i]? = some e) (hg : sc.gts[j]? = some g) (s : Rat)
+    (hs : (mkTbl c sc).score i j = some s) :
+    DT.eval t (MatchKernels.valMatchable c.policy e g) = .ret ((mkTbl c sc).valid i j) := by
+  rw [KernelMatchable.matchable_code_table_eq_isMatchable t ht]
+  simp only [mkTbl, cellAt, he, hg] at hs ⊢
+  unfold cell at hs ⊢
+  by_cases hf : (e.frame == g.frame) = true
+  · simp only [hf, if_true] at hs ⊢
+    cases hl : labelThreshold c.targets c.thresholds g.label with
+    | error err => simp [hl, bind, Except.bind] at hs
+    | ok thr =>
+      cases thr with
+      | none => simp [hl, bind, Except.bind, pure, Except.pure]
+      | some x =>
+        cases hb : isBetterThan c.mode (sc.val i j) x with
+        | error err => simp [hl, hb, bind, Except.bind] at hs
+        | ok b =>
+          cases b
+          · simp [hl, hb, bind, Except.bind, pure, Except.pure, Cell.nan] at hs
+          · simp [hl, hb, bind, Except.bind, pure, Except.pure]
+  · simp [hf, pure, Except.pure, Cell.nan] at hs
 
 end PEval.C02
